@@ -19,7 +19,8 @@ MANIFEST = {
             "path; tied to /repo on every run by differential execution of model and real classes inside coqc; the "
             "oracle for a failing input is the executable statement spec_okb, proved to imply the readable Spec.",
     "note": "Trusted: Coq kernel + vm_compute; the harness (generators, drivers, Gallina printer). Tag sets are "
-            "compared extensionally over a 3-tag universe. Histories need not begin with startTestRun on any "
+            "compared extensionally over a 3-tag universe; every tags(new, gone) call has disjoint sets and tests "
+            "are not nested (the quantifier). Histories need not begin with startTestRun on any "
             "stack (ExtendedToStreamDecorator included: tags()/current_tags/stopTest before the run, the implicit "
             "start at the first startTest/outcome keeps the tags). "
             "A Tagger below a multiplexer/forwarder changes what its subtree sees on purpose: such leaves are "
@@ -35,13 +36,17 @@ RULE = ("histories over startTestRun / tags(new, gone) / startTest / six outcome
         "stopTest, next test - words over {add a, remove a} to length 2 (quick) / 3 (thorough) - on each of six "
         "configurations (ExtendedTestResult, E2O over an old result, MultiTestResult, ThreadsafeForwardingResult, "
         "E2S->S2E, Tagger removing a); random to length 40 (mostly well-formed, a quarter of the tags() calls undo "
-        "the previous one, some with nested tests, two outcomes per test, overlapping new/gone, startTestRun "
-        "inside a test), each through an adapter stack (fixed list of 30 + random to depth 4 over Leaf/old Leaf/"
+        "the previous one, some with two outcomes per test or startTestRun inside a test; new/gone always disjoint "
+        "and tests never nested - in the history, in every Tagger, in every shrink step), each through an adapter stack (fixed list of 30 + random to depth 4 over Leaf/old Leaf/"
         "Multi/Decorator/Tagger/E2O/TFR/E2S->S2E); non-trivial = at least one tags() inside a test, one outside, "
         "and an outcome; distinct = distinct JSON")
 TRUSTED = ["the recording leaves (subclasses of doubles.ExtendedTestResult / Python27TestResult that note "
            "current_tags when an outcome arrives) and doubles.StreamResult are used as they are"]
-ASSUMPTIONS = ["MultiTestResult has at least one member (MultiTestResult() raises IndexError in its constructor)",
+ASSUMPTIONS = ["every tags(new, gone) call of a history and every Tagger(new, gone) of a stack has DISJOINT new/gone sets "
+               "(the property's quantifier; with overlapping sets implementations may differ, e.g. whether "
+               "_merge_tags lets the removal win), and startTest is not called inside an open test: generate() and "
+               "shrink() produce no other input, and spec_okb is vacuous on them",
+               "MultiTestResult has at least one member (MultiTestResult() raises IndexError in its constructor)",
                "one ThreadsafeForwardingResult per target and a single thread (interleavings are C12)"]
 EXPLANATION = ("Theorems in coq/Props/C17.v over all histories and adapter stacks; correspondence: current_tags of "
                "the outermost real object after every call, current_tags of every wrapped recording result at "
@@ -225,19 +230,18 @@ def rand_stack(rng, d):
         return ["M", [rand_stack(rng, d - 1) for _ in range(rng.choice([1, 2, 2, 3]))]]
     if k == "G":
         new = rand_set(rng)
-        gone = [x for x in rand_set(rng) if x not in new or rng.random() < 0.05]
+        gone = [x for x in rand_set(rng) if x not in new]       # Tagger(new, gone) calls tags(new, gone): disjoint
         return ["G", new, gone, rand_stack(rng, d - 1)]
     return [k, rand_stack(rng, d - 1)]
 
 
-def rand_tags(rng, sloppy, last=None):
+def rand_tags(rng, last=None):
+    """a tags(new, gone) call; new and gone are ALWAYS disjoint (the property's quantifier)"""
     if last is not None and (last[1] or last[2]) and rng.random() < 0.25:
         # undo the previous tags() call: re-add what it removed, remove what it added
         return ["T", list(last[2]), list(last[1])]
     new = rand_set(rng)
-    gone = rand_set(rng)
-    if not sloppy:
-        gone = [x for x in gone if x not in new]
+    gone = [x for x in rand_set(rng) if x not in new]
     return ["T", new, gone]
 
 
@@ -249,7 +253,9 @@ def _last_tags(h):
 
 
 def rand_hist(rng, n):
-    """mostly well-formed; with small probability one of the excluded shapes"""
+    """mostly well-formed; with small probability two outcomes in one test or startTestRun inside a test (the
+    first clause still speaks about those).  Never a tags() call with overlapping sets, never a nested startTest:
+    the statement says nothing at all about such histories, so implementations may differ there."""
     sloppy = rng.random() < 0.12
     h = [["R"]] if rng.random() < 0.35 else []     # otherwise the run starts implicitly, or later, or never
     in_test = False
@@ -260,7 +266,7 @@ def rand_hist(rng, n):
             if x < 0.10:
                 h.append(["R"])
             elif x < 0.40:
-                h.append(rand_tags(rng, sloppy, _last_tags(h)))
+                h.append(rand_tags(rng, _last_tags(h)))
             elif x < 0.80:
                 h.append(["S"])
                 in_test, seen = True, False
@@ -274,7 +280,7 @@ def rand_hist(rng, n):
                 h.append(["E"])
         else:
             if x < 0.40:
-                h.append(rand_tags(rng, sloppy, _last_tags(h)))
+                h.append(rand_tags(rng, _last_tags(h)))
             elif x < 0.65 and (not seen or sloppy):
                 h.append(["O", rng.randrange(6)])
                 seen = True
@@ -282,13 +288,41 @@ def rand_hist(rng, n):
                 h.append(["E"])
                 in_test = False
             elif sloppy:
-                h.append(rng.choice([["S"], ["R"]]))
-                if h[-1] == ["R"]:
-                    pass
+                h.append(["R"])
+                in_test = False
     return h[:n]
 
 
 ALPHA = [["R"], ["S"], ["E"], ["O", 0], ["T", [0], []], ["T", [], [0]]]
+
+
+# ---------------- the input domain ----------------
+def _taggers_disjoint(t):
+    k = t[0]
+    if k == "L":
+        return True
+    if k == "M":
+        return all(_taggers_disjoint(c) for c in t[1])
+    if k == "G" and set(t[1]) & set(t[2]):
+        return False
+    return _taggers_disjoint(t[-1])
+
+
+def in_domain(case):
+    """the histories the property quantifies over, as far as the statement speaks at all: every tags(new, gone)
+    call - of the history and of every Tagger in the stack - has disjoint sets, and tests are not nested
+    (Spec.C17: both clauses of spec_okb are vacuous otherwise).  generate() and shrink() stay inside."""
+    in_test = False
+    for op in case["hist"]:
+        if op[0] == "T" and set(op[1]) & set(op[2]):
+            return False
+        if op[0] == "S":
+            if in_test:
+                return False
+            in_test = True
+        elif op[0] in "ER":
+            in_test = False
+    return _taggers_disjoint(case["stack"])
 
 
 ADD, REM = ["T", [0], []], ["T", [], [0]]
@@ -327,10 +361,8 @@ def generate(rng, tier):
         # add globally, remove locally, re-add, next test
         [["R"], a, ["S"], ["T", [], [0]], ["O", 0], ["T", [0], []], ["E"], ["S"], ["T", [1], [0]], ["O", 4], ["E"],
          ["T", [2], [0]], ["S"], ["O", 5], ["E"]],
-        # outside the quantifier: overlap, two outcomes, nested, restart inside a test
-        [["R"], a, ["S"], ["T", [0], [0]], ["O", 0], ["E"]],
+        # second clause silent, first clause not: two outcomes in one test, restart inside a test
         [["R"], ["S"], a, ["O", 0], b, ["O", 1], ["E"]],
-        [["R"], ["S"], a, ["S"], b, ["O", 0], ["E"], ["O", 0], ["E"]],
         [["R"], a, ["S"], b, ["R"], ["T", [2], []], ["O", 0], ["E"], ["S"], ["O", 0], ["E"]],
         [],
         # before any startTestRun (ExtendedToStreamDecorator: the implicit start keeps the tags)
@@ -377,7 +409,7 @@ def generate(rng, tier):
         s = rng.choice(STACKS) if rng.random() < 0.4 else rand_stack(rng, rng.choice([1, 2, 3, 4]))
         h = rand_hist(rng, rng.choice([3, 6, 10, 16, 25, 40]))
         cases.append({"stack": s, "hist": h})
-    return cases
+    return [c for c in cases if in_domain(c)]
 
 
 def nontrivial(case):
@@ -427,6 +459,12 @@ def _sub_stacks(t):
 
 
 def shrink(case):
+    for c in _shrink(case):
+        if in_domain(c):
+            yield c
+
+
+def _shrink(case):
     h, s = case["hist"], case["stack"]
     for i in range(len(h)):
         yield {"stack": s, "hist": h[:i] + h[i + 1:]}
@@ -445,7 +483,7 @@ def shrink(case):
 
 def distribution(cases):
     d = {"hist_len": {}, "stack_kinds": {}, "with_startTestless_outcome": 0, "nontrivial": 0,
-         "outside_quantifier": 0, "restarts": 0, "no_startTestRun_first": 0, "e2s_tags_before_start": 0,
+         "second_clause_silent": 0, "overlapping_or_nested": 0, "restarts": 0, "no_startTestRun_first": 0, "e2s_tags_before_start": 0,
          "readd_same_scope": 0}
     for c in cases:
         n = len(c["hist"])
@@ -485,7 +523,8 @@ def distribution(cases):
             elif op[0] == "T":
                 bad |= bool(set(op[1]) & set(op[2]))
         d["with_startTestless_outcome"] += bare
-        d["outside_quantifier"] += bad
+        d["second_clause_silent"] += bad
+        d["overlapping_or_nested"] += not in_domain(c)
         d["nontrivial"] += nontrivial(c)
         d["readd_same_scope"] += readd
         d["restarts"] += sum(1 for op in c["hist"] if op[0] == "R") >= 2
